@@ -7,15 +7,21 @@ EXPLANATION = (
     "Deductive: _parse_psm over abstract XML elements - the label and protein clauses: a hit is labelled a decoy "
     "exactly when EVERY one of its proteins (primary and alternative, first token of the attribute) carries the "
     "decoy prefix; the protein list starts with the primary accession and contains the accession of every "
-    "alternative_protein element (and nothing else), peptide and calculated mass are taken from the hit.  The "
-    "modification insertion (string surgery with a running offset), the nested generators over runs / spectra / "
-    "hits and the feature post-processing are decided by the bounded run on generated documents.")
+    "alternative_protein element (and nothing else), peptide and calculated mass are taken from the hit; "
+    "_parse_psm#mods - the modification loop over character sequences: for modifications listed at ascending "
+    "positions inside the peptide, '[' mass ']' of modification i stands directly after the first position(i) "
+    "residues, the residues between two modifications and after the last one are the peptide's in place, the "
+    "length grows by exactly the brackets.  The nested generators over runs / spectra / hits and the feature "
+    "post-processing are decided by the bounded run on generated documents.")
 ASSUMPTIONS = [
     "lxml: element.get(name) is the attribute or None; element.iter(*tags) yields the matching descendants in "
     "document order; each yielded element's tag contains exactly the query it matched",
     "the PSM dictionary is a record: a search_score whose name equals a reserved key (label, proteins, peptide ...) "
     "would overwrite it - assumed not to occur",
     "strings abstract (split / startswith / join as in pyvc/libstr.py)",
+    "#mods: a string and its character sequence are the same value; mod.get('mass') being None raises the "
+    "TypeError at the assignment instead of at the concatenation two lines later (same iteration, no effect in "
+    "between); int(position) is a function of the attribute text",
 ]
 
 _P0 = "first_token(attr(psm_info, 'protein'))"
@@ -64,10 +70,72 @@ parse_psm = Contract(
     abstract_ok=["mod_pep = mod_pep[:idx]", "idx = offset + int(", "offset += 2 + len(mass)"],
 )
 
-CONTRACTS = [parse_psm]
+# ---------------------------------------------------------------------------------------------------------------
+# the modification loop: string surgery with a running offset, over character sequences
+_M = "xml_iter(element, '{*}mod_aminoacid_mass')"
+_POS = lambda i: "int(attr(%s[%s], 'position'))" % (_M, i)
+_MASS = lambda i: "chars(attr(%s[%s], 'mass'))" % (_M, i)
+_PREV = lambda i: "(%s if %s > 0 else 0)" % (_POS("%s - 1" % i), i)
+_K = "_k0"
+
+
+def _mods_facts(k):
+    """what holds after the first k modifications were spliced in (mod_pep, offset, ghost_off)"""
+    return [
+        "len(ghost_off) == %s" % k,
+        "offset >= 0 and len(mod_pep) == len(P) + offset",
+        # ghost_off[i] = total length of the brackets inserted before modification i
+        "all(ghost_off[i] >= 0 and ghost_off[i] + 2 + len(%s) <= offset for i in range(%s))" % (_MASS("i"), k),
+        "implies(%s > 0, offset == ghost_off[%s - 1] + 2 + len(%s))" % (k, k, _MASS("%s - 1" % k)),
+        "implies(%s == 0, offset == 0)" % k,
+        # each modification sits DIRECTLY AFTER its residue: '[' mass ']' follows the first POS(i) residues ...
+        "all(mod_pep[ghost_off[i] + %s] == chars('[')[0] and "
+        "mod_pep[ghost_off[i] + %s + 1 + len(%s)] == chars(']')[0] and "
+        "all(mod_pep[ghost_off[i] + %s + 1 + j] == %s[j] for j in range(len(%s))) for i in range(%s))"
+        % (_POS("i"), _POS("i"), _MASS("i"), _POS("i"), _MASS("i"), _MASS("i"), k),
+        # ... the residues between two modifications are the peptide's, in place (shifted by the brackets before)
+        "all(all(mod_pep[ghost_off[i] + q] == P[q] for q in range(%s, %s)) for i in range(%s))"
+        % (_PREV("i"), _POS("i"), k),
+        # ... and so are the residues after the last modification
+        "all(mod_pep[offset + q] == P[q] for q in range(%s, len(P)))" % _PREV(k),
+    ]
+
+
+mods = Contract(
+    target="mokapot.parsers.pepxml._parse_psm#mods",
+    block={"inside": ["for element in psm_info.iter(", "if 'modification_info' in element.tag:"],
+           "start": "offset = 0", "end": "for mod in element.iter("},
+    free={"psm": "rec", "element": "Elem"},
+    locals={"psm[peptide]": "list[Char]", "mod_pep": "list[Char]", "mass": "list[Char]", "offset": "int",
+            "idx": "int", "ghost_off": "list[int]"},
+    entry_ghost=["let P = psm['peptide']", "ghost ghost_l0: list[int]", "let ghost_off = ghost_l0[0:0]"],
+    assumes=[
+        # the quantifier domain of the property: modifications listed at ascending positions inside the peptide
+        "forall(lambda a, b: implies(0 <= a <= b < len(%s), %s <= %s), trigger=lambda a, b: (%s[a], %s[b]))"
+        % (_M, _POS("a"), _POS("b"), _M, _M),
+        "all(0 <= %s <= len(P) for i in range(len(%s)))" % (_POS("i"), _M),
+    ],
+    loops={0: Loop(ghost_pre=["let ghost_off = ghost_off + [offset]"], invariant=_mods_facts(_K))},
+    ensures=_mods_facts("len(%s)" % _M)[1:],
+    raises={"TypeError": "True", "ValueError": "True"},
+)
+
+CONTRACTS = [parse_psm, mods]
 BOUNDED = {"module": "harness.c20"}
 
 MUTANTS = [
+    {"name": "offset-misses-one-bracket", "target": "mokapot.parsers.pepxml._parse_psm#mods",
+     "find": "offset += 2 + len(mass)", "replace": "offset += 1 + len(mass)"},
+    {"name": "position-without-offset", "target": "mokapot.parsers.pepxml._parse_psm#mods",
+     "find": "idx = offset + int(mod.get(\"position\"))", "replace": "idx = int(mod.get(\"position\"))"},
+    {"name": "residue-after-the-modification-dropped", "target": "mokapot.parsers.pepxml._parse_psm#mods",
+     "find": "+ \"]\" + mod_pep[idx:]", "replace": "+ \"]\" + mod_pep[idx + 1:]"},
+    {"name": "modification-before-its-residue", "target": "mokapot.parsers.pepxml._parse_psm#mods",
+     "find": "idx = offset + int(mod.get(\"position\"))", "replace": "idx = offset + int(mod.get(\"position\")) - 1"},
+    {"name": "round-brackets", "target": "mokapot.parsers.pepxml._parse_psm#mods",
+     "find": "mod_pep[:idx] + \"[\" + mass", "replace": "mod_pep[:idx] + \"(\" + mass"},
+    {"name": "mass-inserted-twice", "target": "mokapot.parsers.pepxml._parse_psm#mods",
+     "find": "+ \"[\" + mass + \"]\"", "replace": "+ \"[\" + mass + mass + \"]\""},
     {"name": "decoy-if-any-protein-is-decoy", "target": "mokapot.parsers.pepxml._parse_psm",
      "find": "            if not psm[\"label\"]:\n                psm[\"label\"] = not psm[\"proteins\"][-1].startswith(decoy_prefix)",
      "replace": "            if psm[\"label\"]:\n                psm[\"label\"] = not psm[\"proteins\"][-1].startswith(decoy_prefix)"},
